@@ -1,5 +1,8 @@
 """C08 - request/response correlation.
 
+C08.owner  who-may-write: registries are bound by constructors only, entries removed by processIqRegistry only
+C08.stack  the composition rule (no registry-owning layer twice in a stack)
+
 C08.state  the registries (and every attribute the two registry-owning classes mutate in place) are bound per instance
 
 C08.reg    in both _sendIq the registry write dominates the send
@@ -403,6 +406,39 @@ def rule_state(ctx):
     ctx.units["C08.state_attrs"] = n
 
 
+def rule_owner(ctx):
+    """who-may-write: a layer's iqRegistry is bound only by a constructor and entries leave it only inside
+    processIqRegistry - any other rebinding / clearing / deletion (in whatever subclass) makes outstanding requests
+    of that layer lose their callbacks"""
+    repo = ctx.repo
+    owners = [repo.cls(rel, cn) for rel, cn in REGISTRIES]
+    n = 0
+    for m in sorted(repo.modules.values(), key=lambda m: m.relpath):
+        if "/demos/" in m.relpath:
+            continue
+        for c in m.classes.values():
+            if not any(o in repo.mro(c) for o in owners):
+                continue
+            for name, f in sorted(c.methods.items()):
+                for x in ast.walk(f):
+                    bad = None
+                    if isinstance(x, (ast.Assign, ast.AugAssign)):
+                        for t in (x.targets if isinstance(x, ast.Assign) else [x.target]):
+                            if isinstance(t, ast.Attribute) and t.attr == "iqRegistry" and isinstance(t.value, ast.Name) and t.value.id == "self" and name != "__init__":
+                                bad = "rebinds the registry"
+                    elif isinstance(x, ast.Delete) and name != "processIqRegistry":
+                        for t in x.targets:
+                            if isinstance(t, ast.Subscript) and unparse(t.value) == "self.iqRegistry":
+                                bad = "deletes a registry entry"
+                    elif isinstance(x, ast.Call) and isinstance(x.func, ast.Attribute) and x.func.attr in ("clear", "pop", "popitem") and unparse(x.func.value) == "self.iqRegistry" and name != "processIqRegistry":
+                        bad = "removes registry entries"
+                    if bad:
+                        ctx.violate("C08.owner", where(m.relpath, "%s.%s" % (c.name, name), x.lineno), x,
+                                    "%s outside the constructor / processIqRegistry: every request of this layer that is still waiting for its reply loses its callbacks (the reply surfaces as an unknown stanza, the application is never called)" % bad)
+                n += 1
+    ctx.hold("C08.owner", where("", "", None), "registry writers", "%d methods of registry-owning layers examined: only constructors bind, only processIqRegistry removes" % n)
+
+
 def run(ctx):
     ctx.rule("C08.reg", "registry write dominates the send, keyed by id", floor=6)
     ctx.rule("C08.pop", "entry removed before callbacks, result/error pairing, arguments, return value", floor=16)
@@ -410,6 +446,8 @@ def run(ctx):
     ctx.rule("C08.cb", "registered callbacks bind two arguments", floor=40)
     ctx.rule("C08.id", "process-wide id counter", floor=3)
     ctx.rule("C08.hist", "abstract execution of all bounded send/reply histories", floor=2)
+    ctx.rule("C08.owner", "only constructors bind and only processIqRegistry removes from a registry", floor=1)
+    ctx.rule("C08.entity", "the entity built for an iq reply carries the reply's own id and fields (C09.same / kept / ret adopted for iq classes)", floor=10)
     ctx.rule("C08.state", "the registries are bound per layer instance by the constructors", floor=2)
     ctx.assume("dict semantics of CPython; callbacks' own behaviour is the application's")
     ctx.guarded("C08.reg", rule_reg, ctx)
@@ -419,3 +457,11 @@ def run(ctx):
     ctx.guarded("C08.id", rule_id, ctx)
     ctx.guarded("C08.hist", rule_hist, ctx, ctx.tier)
     ctx.guarded("C08.state", rule_state, ctx)
+    ctx.guarded("C08.owner", rule_owner, ctx)
+    # the stack holds each registry-owning layer once (composition rule) and the entity delivered for a reply carries the
+    # reply's own id and fields (C09.same / C09.kept), adopted
+    from .c18 import rule_composition
+    ctx.guarded("C08.stack", rule_composition, ctx, "C08.stack")
+    from . import c09
+    iq_base = ctx.repo.cls("yowsup/layers/protocol_iq/protocolentities/iq.py", "IqProtocolEntity")
+    ctx.adopt_from("C09", [(c09.rule_classes, (lambda c: iq_base in ctx.repo.mro(c),))], {"C09.same": "C08.entity", "C09.kept": "C08.entity", "C09.ret": "C08.entity"})
